@@ -206,10 +206,23 @@ def solo(c) -> Tuple[dict, List[dict]]:
     return f.results[0], f.events[0]
 
 
-def tags_of(events: List[dict], result: dict) -> List[str]:
+SEM_ONLY = ("TDsOutSet", "TDsOutClear", "TVcReset", "TVcDs", "TVcDc")
+
+
+def tags_of(events: List[dict], result: dict, kind: str = "run") -> List[str]:
+    """the call's trace as model tags.  Two accesses have no yield point and are placed by rule: the read of dataset_output by the
+    SemanticError / RunTimeError constructors (TRaise, at the end) and the write `dataset_output = None` in the `finally` of
+    Interpreter.visit_Start (a TDsOutClear marked '!' = no pause: after the last event of the semantic pass)."""
     tr = [e["tag"] for e in events]
-    if not result.get("ok") and result.get("err", [None])[0] in ("Semantic", "Runtime"):
-        tr.append("TRaise")      # constructing SemanticError / RunTimeError reads Exceptions.dataset_output
+    raised = not result.get("ok") and result.get("err", [None])[0] in ("Semantic", "Runtime")
+    if kind in ("run", "semantic") and "TRegSet" in tr:
+        if kind == "semantic" or (raised and "TTpSet" not in tr):
+            tr = tr + (["TRaise"] if raised else []) + ["TDsOutClear!"]
+            return tr
+        last = max((k for k, t in enumerate(tr) if t in SEM_ONLY), default=tr.index("TRegSet"))
+        tr = tr[:last + 1] + ["TDsOutClear!"] + tr[last + 1:]
+    if raised:
+        tr.append("TRaise")
     return tr
 
 
@@ -220,6 +233,9 @@ def steps_at_pause(tags: List[str]) -> List[int]:
     for t in tags:
         if t == "TRaise":
             break
+        if t.endswith("!"):
+            done += NSTEPS[t[:-1]]
+            continue
         if t in NO_PAUSE:
             done += NSTEPS[t]
             continue
@@ -229,7 +245,7 @@ def steps_at_pause(tags: List[str]) -> List[int]:
 
 
 def total_steps(tags: List[str]) -> int:
-    return sum(NSTEPS[t] for t in tags)
+    return sum(NSTEPS[t.rstrip("!")] for t in tags)
 
 
 def model_schedule(applied: List[Tuple[int, int]], tagss: List[List[str]]) -> List[int]:
@@ -253,7 +269,7 @@ HEADER = ("From Coq Require Import List ZArith. Import ListNotations.\nFrom VTL 
 
 
 def coq_prog(tok: int, tags: List[str]) -> str:
-    return f"(prog_of_trace gmap_impl {tok}%Z [{'; '.join(tags)}])"
+    return f"(prog_of_trace gmap_impl {tok}%Z [{'; '.join(t.rstrip('!') for t in tags)}])"
 
 
 def coq_progs(tagss: List[List[str]]) -> str:
@@ -292,7 +308,7 @@ def engine_obs(events: List[dict]) -> List[Tuple[int, int]]:
 
 def model_shapes(items: List[Tuple[str, List[str]]], tag: str) -> List[bool]:
     fn = {"run": "is_run_trace", "semantic": "is_semantic_trace", "prettify": "is_parse_trace", "create_ast": "is_parse_trace"}
-    exprs = [f"{fn[k]} [{'; '.join(t)}]" for k, t in items]
+    exprs = [f"{fn[k]} [{'; '.join(x.rstrip('!') for x in t)}]" for k, t in items]
     return common.coq_eval(HEADER, exprs, tag, shard=200)
 
 
@@ -367,10 +383,10 @@ def witness_schedules(tagss: List[List[str]]) -> List[Tuple[str, List[Tuple[int,
     n = len(tagss)
 
     def pause_before(tags, idx):       # pause index at which the thread sits just before executing event idx (a before-access tag)
-        return sum(1 for t in tags[:idx] if t not in NO_PAUSE and t != "TRaise") + 1
+        return sum(1 for t in tags[:idx] if t not in NO_PAUSE and t != "TRaise" and not t.endswith("!")) + 1
 
     def pause_after_write(tags, idx):  # first pause index at which the write of event idx has happened
-        p = sum(1 for t in tags[:idx] if t not in NO_PAUSE and t != "TRaise") + 1
+        p = sum(1 for t in tags[:idx] if t not in NO_PAUSE and t != "TRaise" and not t.endswith("!")) + 1
         return p if tags[idx] in AFTER_ACCESS else p + 1
 
     for a in range(n):
@@ -393,9 +409,12 @@ def witness_schedules(tagss: List[List[str]]) -> List[Tuple[str, List[Tuple[int,
                         out.append((f"witness:dataset_output:{wtag}:{a}<-{b}", [(a, pause_after_write(ta, sets[-1])), (b, pause_after_write(tb, tb.index(wtag)))]))
             if "TVcDs" in ta and "TVcDs" in tb:
                 out.append((f"witness:vcounter:{a}<-{b}", [(a, pause_before(ta, ta.index("TVcDs"))), (b, pause_after_write(tb, tb.index("TVcDs")))]))
-            if "TRaise" in ta and "TDsOutSet" not in ta[max(0, len(ta) - 3):] and "TDsOutSet" in tb:
-                # a raises late (execution error): b's set must be in force at that moment -> b stops right after a set, a runs to the end
-                out.append((f"witness:dataset_output:late-raise:{a}<-{b}", [(b, pause_after_write(tb, tb.index("TDsOutSet"))), (a, 10 ** 6)]))
+                # b stops right after having advanced the counter; a then runs from start to end: a's names start from b's residue
+                out.append((f"witness:vcounter-residue:{a}<-{b}", [(b, pause_after_write(tb, tb.index("TVcDs"))), (a, 10 ** 6)]))
+            if "TRaise" in ta and "TTpSet" in ta and "TDsOutSet" in tb:
+                # a raises late (execution error, after its own semantic pass has cleared the name): b's set must be in force then
+                out.append((f"witness:dataset_output:late-raise:{a}<-{b}",
+                            [(a, pause_before(ta, ta.index("TTpSet"))), (b, pause_after_write(tb, tb.index("TDsOutSet"))), (a, 10 ** 6)]))
     return out
 
 
@@ -609,7 +628,7 @@ def run(ctx):
         for c in sc["calls"]:
             r, ev = solo(c)
             solos.append(r)
-            tags = tags_of(ev, r)
+            tags = tags_of(ev, r, c["kind"])
             tagss.append(tags)
             shape_items.append((c["kind"], [t for t in tags]))
             shape_names.append(f"{sc['name']}:{c['name']}")
